@@ -34,7 +34,8 @@ CLAIMS = {
              "stamps are clock.tick(); R08.3 every insert of an externally produced value into ShardReplicaState.replicated_keys is "
              "dominated by LamportClock::update(clock, &value.timestamp) (covers remote deltas and the recovery arm); R08.4 recovery "
              "is wired (checkpoint then deltas, before accept); R08.5 every remote delta reaches the clock-advancing ingest on all "
-             "paths. These are who-may-write and must-pass-through facts over all paths incl. the never-tested recovery arm.",
+             "paths. These are who-may-write and must-pass-through facts over all paths incl. the never-tested recovery arm."
+             " R08.2 also requires the outer stamp of a value to be the tick taken for that write, and R08.1 that only the clock's owner replaces a clock wholesale.",
         technique="who-may-write field scan over all MIR bodies, store-shape classification, dominance / must-pass-through, value provenance",
         ref="DESIGN.md §3 C08"),
     "C10": dict(
@@ -52,7 +53,8 @@ CLAIMS = {
              "consume site each path to return encodes exactly one reply, NeedMoreData consumes nothing; R04.3 discarded input is "
              "followed by an error reply; R04.4 every reply-producing site reaches write_all or the is_empty edge before the next "
              "read; R04.6 recogniser offsets equal the matched literal's length. Known findings: HEADER_LEN 14 vs 13 (x4) and the "
-             "below-threshold drop (x2, keyed by whether the recogniser is live). Does not decide reply contents. R04.4 also requires that bytes handed to the socket are cleared from write_buffer before it is reused.",
+             "below-threshold drop (x2, keyed by whether the recogniser is live). Does not decide reply contents. R04.4 also requires that bytes handed to the socket are cleared from write_buffer before it is reused."
+             ' R04.7 the decoder never rejects a frame before it is complete (a rejection that a longer prefix would withdraw breaks segmentation independence).',
         technique="CFG path search with exempt edges (consume=>reply pairing), dominance, constant/literal agreement from evaluated MIR constants",
         ref="DESIGN.md §3 C04"),
     "C17": dict(
@@ -60,7 +62,8 @@ CLAIMS = {
              "Command::is_read_only can classify read-only dispatches only to handlers without a visible write site in their "
              "transitive closure; R17.2 in every handler (and inline dispatch arm) no error reply is reachable from a write site "
              "(fallible data-structure methods that validate before mutating are summarised); R17.4 ACL-denied/parse-error paths "
-             "never reach state.execute. Does not decide scripts nor value-correlated error->write orders. R17.5 a write reachable after an error reply was chosen must be excluded by the value variant the error arm rules out.",
+             "never reach state.execute. Does not decide scripts nor value-correlated error->write orders. R17.5 a write reachable after an error reply was chosen must be excluded by the value variant the error arm rules out."
+             ' R17.6 execute_exec constructs no error reply of its own at or after the start of the replay.',
         technique="MIR effect analysis (write-site classification by receiver provenance, transitive writer set, CFG reachability write->error), enum dispatch tables",
         ref="DESIGN.md §3 C17"),
     "C01": dict(
@@ -70,7 +73,8 @@ CLAIMS = {
              "whole-value inserts update the TTL or are in the frozen keep-TTL table behind a purge; R01.5 shrinking a stored "
              "collection is followed by an emptiness test + removal; R01.6 a create-if-absent is followed on every path by an add "
              "(per loop iteration), a removal, or the wrong-type exit; R01.7 seconds/milliseconds sibling commands have equal "
-             "decision skeletons. Does not decide equality of replies with Redis. R01.8 a conditional command refuses (0/nil decided by a keyspace test) before any write.",
+             "decision skeletons. Does not decide equality of replies with Redis. R01.8 a conditional command refuses (0/nil decided by a keyspace test) before any write."
+             ' R01.9 index windows (LTRIM/LRANGE/GETRANGE-style start/stop) are clamped the same way by the range reader and the trimming writer; R01.10 a client-supplied integer is negated only with checked_neg and an error on overflow.',
         technique="MIR provenance/dominance pairing rules over all executor handlers, path search with exempt edges, sibling CFG-skeleton comparison",
         ref="DESIGN.md §3 C01"),
     "C03": dict(
@@ -79,7 +83,8 @@ CLAIMS = {
              "hash_key*(served key), a direct enumerate() of the per-shard bucket vector, a bucket-map key produced by hash_key, or "
              "the key-less constant-0 fallback; R03.3 every multi-key variant (derived from Command::get_keys) has a partitioning arm "
              "(8 known findings); R03.4 keyspace-wide commands fan out (RANDOMKEY known finding); R03.6 generic dispatch sends only "
-             "timed messages with the virtual time read at entry. Does not decide reply equality. R03.1 also requires every routing function to hash the whole key (or the same transformation); R03.4 requires the fan-out on every path through a keyspace-wide arm.",
+             "timed messages with the virtual time read at entry. Does not decide reply equality. R03.1 also requires every routing function to hash the whole key (or the same transformation); R03.4 requires the fan-out on every path through a keyspace-wide arm."
+             ' R03.2 also requires the per-shard bucket vector to have one slot per shard (num_shards), and R03.7 requires the script cache used by EVAL/EVALSHA to be the shared one whenever it exists.',
         technique="resolved generic-argument comparison of Hash::hash callees, index provenance analysis, enum dispatch tables derived from MIR",
         ref="DESIGN.md §3 C03"),
     "C05": dict(
@@ -96,7 +101,8 @@ CLAIMS = {
              "before a sign-losing cast; R15.2 allocations sized by a tainted value are clamped to / bounded by the input length; "
              "R15.3 no unchecked +/* on an unbounded tainted value; R15.4 slice ranges built from tainted values are dominated by a "
              "comparison against the input length; R15.5 Incomplete-sentinel discipline incl. a completeness guard that covers "
-             "payload+CRLF; R15.6 decimal scratch buffers hold i64::MIN. Does not decide prefix-stability or round-trips by value. R15.7 a hand-written signed decimal parser does not negate an accumulated magnitude (i64::MIN).  Local integer-parsing helpers count as taint sources.",
+             "payload+CRLF; R15.6 decimal scratch buffers hold i64::MIN. Does not decide prefix-stability or round-trips by value. R15.7 a hand-written signed decimal parser does not negate an accumulated magnitude (i64::MIN).  Local integer-parsing helpers count as taint sources."
+             ' R15.8 reply encoders never write a constant that is conditional on a prefix/substring test of the payload (payload transparency).',
         technique="intra-procedural forward taint over MIR with root tracking and guard-based sanitisation (dominating comparisons)",
         ref="DESIGN.md §3 C15"),
     "C13": dict(
@@ -104,7 +110,8 @@ CLAIMS = {
              "(known finding: keeps newest-by-time); R13.2 no comparison mixes wall-clock and Lamport time (known finding); R13.4 "
              "manifest read-modify-write must be re-validated before save (4 known findings incl. flush); R13.5 a failed fetch or decode "
              "never schedules a segment for removal, except a fetch that failed with ErrorKind::NotFound (both former findings are fixed); R13.6 manifest entries are dropped by membership in the id "
-             "list derived from the folded segments; R13.7 tombstones are judged on the folded map only. Does not decide state equality. R13.1 also requires that the fold replaces an entry only behind `key absent` or a stamp comparison; R13.8 every folded delta is written; R13.9 the selection is an oldest-first prefix of the sorted candidates.",
+             "list derived from the folded segments; R13.7 tombstones are judged on the folded map only. Does not decide state equality. R13.1 also requires that the fold replaces an entry only behind `key absent` or a stamp comparison; R13.8 every folded delta is written; R13.9 the selection is an oldest-first prefix of the sorted candidates."
+             ' R13.10 the tombstone TTL is the whole configured duration (as_millis/as_secs, never a sub-second component).',
         technique="MIR call/provenance analysis across closure captures, wall-clock vs logical-time provenance typing, path search from failure edges",
         ref="DESIGN.md §3 C13"),
     "C11": dict(
@@ -113,7 +120,8 @@ CLAIMS = {
              "list is manifest.segments -> [filter id > checkpoint id, only with a checkpoint] -> Vec, sorted in place - any keyed or "
              "truncating step is reported; load failures and decode errors propagate; validate precedes deltas; R11.3 the plain-insert "
              "recovery message has a single caller and deltas go through the merging ingest; R11.5 WAL deltas are appended on every "
-             "path. Does not decide equality with the ground-truth merge. R11.2 also fixes the checkpoint filter to exactly `id > checkpoint id` and requires the loaded deltas of every iteration to be appended; R11.3 requires the recovered state to be handed over as received at both hops.",
+             "path. Does not decide equality with the ground-truth merge. R11.2 also fixes the checkpoint filter to exactly `id > checkpoint id` and requires the loaded deltas of every iteration to be appended; R11.3 requires the recovered state to be handed over as received at both hops."
+             ' R11.6 the WAL-file loop visits every file and the recovered state is stored on every path of the ApplyRecoveredState arm.',
         technique="value-provenance chain analysis over iterator adaptors (incl. helpers), error-propagation analysis on awaited results, who-may-call",
         ref="DESIGN.md §3 C11"),
     "C06": dict(
@@ -130,7 +138,8 @@ CLAIMS = {
              "never combined with xor/add/or; R18.2 digest coverage of ReplicatedValue fields (known finding: only stamp + LWW payload); "
              "R18.3 a sync applies A->B and B->A through apply_remote_deltas after both selections; R18.4 digest construction and "
              "selection use KeyDigest::bucket with the configured depth; R18.6 selection filters on bucket membership only. Does not "
-             "decide termination under the per-round limit. R18.1 also applies rule H to every digest-computing function; R18.2 requires the digest to keep covering stamp and LWW payload; R18.3 forbids narrowing the selection before it is applied.",
+             "decide termination under the per-round limit. R18.1 also applies rule H to every digest-computing function; R18.2 requires the digest to keep covering stamp and LWW payload; R18.3 forbids narrowing the selection before it is applied."
+             ' R18.7 the per-round limit is applied after the divergent-bucket filter, never to the scan.',
         technique="hash-order-leak rule (unordered iteration -> order-sensitive sink needs a sort), operator-shape scan, field-coverage set comparison, provenance of sync endpoints",
         ref="DESIGN.md §3 C18"),
     "C19": dict(
@@ -140,7 +149,8 @@ CLAIMS = {
              "vector built from ring entries; R19.4 n = min(rf, len), distinctness via the seen-set, loop bound; R19.5 route_selective "
              "= get_gossip_targets(key, my_replica) with a per-target address skip that continues with the next target; "
              "get_gossip_targets filters only != sender; queue_deltas emits one message per routing entry. Does not decide minimal "
-             "disruption.",
+             "disruption."
+             ' R19.5 also requires the per-target loop to walk the whole owner list (no take/skip between get_gossip_targets and the loop).',
         technique="callee allow-list over resolved MIR calls, must-follow pairing (grow => sort), who-may-use field scan, loop-structure path analysis",
         ref="DESIGN.md §3 C19"),
     "C20": dict(
@@ -151,7 +161,8 @@ CLAIMS = {
              "R20.2 every RNG is seed_from_u64(parameter); R20.3 rule H: no HashMap/HashSet iteration feeds an unsorted Vec, a shared "
              "hasher, a first-element pick or a per-element RNG draw (8 frozen, reasoned exceptions); R20.4 the event queue is a "
              "BinaryHeap ordered by virtual time. The quick tier analyses the default and the simulation-feature configuration. Does not "
-             "compare traces across processes. R20.5 fault decisions compare the RNG draw with FaultConfig::get on the current config (or the probability parameter) only.",
+             "compare traces across processes. R20.5 fault decisions compare the RNG draw with FaultConfig::get on the current config (or the probability parameter) only."
+             ' R20.6 harness-reachable code uses no run-time-mutable static and no thread-local other than the BUGGIFY context; process-keyed hashers (AHasher::default, RandomState) are forbidden as sources of values in harness-reachable code.',
         technique="call-graph reachability over resolved callees with path witnesses, dataflow from unordered iterations to order-sensitive sinks (rule H), conditional exception table",
         ref="DESIGN.md §3 C20"),
     "C02": dict(
@@ -168,7 +179,8 @@ CLAIMS = {
              "byte ranges field by field; R14.2 size constants cover the written bytes, readers stay within them, validate() compares "
              "magic, version and checksum; R14.3 every decoded header field is fed to that header's CRC; R14.4 decode is dominated by a "
              "successful validate() at every consumer; R14.5 serde pairs use one format on one type, SDS writes/reads raw bytes in "
-             "every serializer; R14.6 the WAL reader stops at the first undecodable entry. Does not decide value round-trips.",
+             "every serializer; R14.6 the WAL reader stops at the first undecodable entry. Does not decide value round-trips."
+             ' R14.7 the WAL entry decoder does not reject intact entries by size.',
         technique="codec layout extraction from MIR (ordered writer calls vs reader constant ranges), checksum field-coverage sets, dominance by validate() Ok edges",
         engine="mirfacts+rules",
         ref="DESIGN.md §3 C14"),
@@ -178,7 +190,8 @@ CLAIMS = {
              "let inlining, renaming table); R16.2 the six extract_* helper pairs are equal modulo the renaming; R16.3 every Lua "
              "translator arm exists in the RESP parser, builds the same variant, normalises keyword case at the same argument positions "
              "and knows only RESP keywords (4 known findings: missing options); R16.4 RESP->Lua conversion covers all RespValue "
-             "variants. Does not decide script effect equality. R16.5 the Lua translator builds SDS operands from raw bytes.",
+             "variants. Does not decide script effect equality. R16.5 the Lua translator builds SDS operands from raw bytes."
+             ' R16.1 also compares what surrounds the arm tables (how the command name is extracted and case-folded); R16.3 also requires the same command-name folding on the script path and every reject-only call of a client arm (`Self::check_x(..)?;`) to be present in the script arm.',
         technique="syn AST normal-form comparison of sibling implementations (engine/synq), arm-summary comparison, enum-dispatch exhaustiveness from MIR",
         engine="synq+rules",
         ref="DESIGN.md §3 C16"),
